@@ -30,7 +30,9 @@ def _check_case(ctx, metrics, c, variant):
     o0, e0 = o2.copy(), e2.copy()
     case = {"obs": c["obs"], "ens": c["ens"], "variant": variant}
     try:
-        if variant.get("layout"):
+        if variant.get("colobs") and len(o2) >= 2:
+            dec, tab = metrics.crps(o2[:, None], e2)          # observations as an [n,1] column (a documented input shape)
+        elif variant.get("layout"):
             (dec, tab), _used = try_layout(metrics.crps, (o2, e2), (relayout(o2, variant["layout"], containers=True), relayout(e2, variant["layout"] // 7, containers=True)))
         else:
             dec, tab = metrics.crps(o2, e2)
@@ -100,7 +102,7 @@ def spec_to_code(ctx, metrics, cfg):
         _check_case(ctx, metrics, c, base)
         var = {"shift": [0, -5, 100][h % 3], "scale": [1.0, 0.5, 8.0][(h // 3) % 3] * [1.0, 2.0 ** -70, 2.0 ** 40, 2.0 ** -300][(h // 5292) % 4],
                "revmem": bool((h // 9) % 2), "revfc": bool((h // 18) % 2), "nanrow": bool((h // 36) % 3 == 0),
-               "layout": (h // 108) % 49}
+               "layout": (h // 108) % 49, "colobs": bool((h // 7) % 4 == 0)}
         _check_case(ctx, metrics, c, var)
         ties = any(len(set(e)) < len(e) for e in c["ens"]) or any(o in e for o, e in zip(c["obs"], c["ens"]))
         ctx.count({"o": c["obs"], "e": c["ens"]}, ties)
